@@ -3,6 +3,7 @@ EXTENDS Aggregator, TLC, Json
 SizesA == <<1, 2, 3>>
 SizesB == <<2, 2, 1, 4>>
 SizesC == <<3, 1, 2>>
+SizesD == <<1, 2, 1>>     \* with Threshold = 1: every reported measurement is revealed
 W2 == {1, 2}
 W3 == {1, 2, 3}
 \* the expected output, emitted once for the replay on the real aggregation server
